@@ -36,14 +36,15 @@ from engine.ch import ok
 
 THOROUGH = os.environ.get('C28_TIER') == 'thorough'
 IDX_LO, IDX_HI = (-6, 6) if THOROUGH else (-2, 4)        # list index range (lists have 2..4 items)
-SL_LO, SL_HI = (-3, 4) if THOROUGH else (-1, 2)          # slice bound range (None is always included)
-STEPS = (None, -1, 2, 1, -2) if THOROUGH else (None, -1, 2)
+SL_LO, SL_HI = (-3, 4) if THOROUGH else (-1, 1)          # slice bound range (None is always included)
+STEPS = (None, 2, -1, 1, -2) if THOROUGH else (None, 2)
 NSTEP = len(STEPS)
 N_LO, N_HI = (-1, 3) if THOROUGH else (0, 2)             # repeat count for *=
 NSHAPE = 7 if THOROUGH else 4                            # value shapes (see value())
 NSEQ = 6 if THOROUGH else 4                              # iterable-argument shapes (see iterable() / mapping())
 NONLIST = (1, 2, 5) if THOROUGH else (1, 2)              # iterable shapes that are neither list nor dict: tuple, iterator, generator
 NNONLIST = len(NONLIST)
+NSLSHAPE = 4 if THOROUGH else 2                          # value shapes used by the slice-assignment harnesses
 
 db = None
 J = R = None
@@ -182,19 +183,36 @@ def _sl(A):
 # Every entry applies ONE Python-level operation to the container `c`.  `t op= x` on a local name is exactly
 # `t = operator.iop(t, x)`; the store into the local name is not observable, so the operator call is the whole statement.
 
+def _get(o, name):
+    # literal attribute loads/stores (CrossHair replaces the getattr/setattr builtins by untraced versions)
+    if name == 'data': return o.data
+    if name == 'tags': return o.tags
+    if name == 'names': return o.names
+    if name == 'vals': return o.vals
+    raise AssertionError(name)
+
+
+def _put(o, name, x):
+    if name == 'data': o.data = x
+    elif name == 'tags': o.tags = x
+    elif name == 'names': o.names = x
+    elif name == 'vals': o.vals = x
+    else: raise AssertionError(name)
+
+
 def _stmt_iadd(c, A, o, name, parent, key):
     # the statement form  `obj.attr += x`  /  `parent[key] += x`  (load, in-place operator, store back)
-    if parent is None: setattr(o, name, operator.iadd(getattr(o, name), iterable(A, c)))
+    if parent is None: _put(o, name, operator.iadd(_get(o, name), iterable(A, c)))
     else: parent[key] = operator.iadd(parent[key], iterable(A, c))
 
 
 def _stmt_imul(c, A, o, name, parent, key):
-    if parent is None: setattr(o, name, operator.imul(getattr(o, name), A.n))
+    if parent is None: _put(o, name, operator.imul(_get(o, name), A.n))
     else: parent[key] = operator.imul(parent[key], A.n)
 
 
 def _stmt_ior(c, A, o, name, parent, key):
-    if parent is None: setattr(o, name, operator.ior(getattr(o, name), mapping(A, c)))
+    if parent is None: _put(o, name, operator.ior(_get(o, name), mapping(A, c)))
     else: parent[key] = operator.ior(parent[key], mapping(A, c))
 
 
@@ -202,7 +220,7 @@ def _stmt_assign(c, A, o, name, parent, key):
     # `obj.attr = new value` / `parent[key] = new value`: the new value must be tracked from then on (rule W)
     x = value(A)
     if A.kind != 'json': x = [x]
-    if parent is None: setattr(o, name, x)
+    if parent is None: _put(o, name, x)
     else: parent[key] = x
 
 
@@ -357,7 +375,7 @@ def _load(target):
     ename, pk, aname, path = TARGETS[target]
     E = J if ename == 'J' else R
     o = E[pk]
-    root = getattr(o, aname)
+    root = _get(o, aname)
     c, parent, key = root, None, None
     for step in path:
         parent, key = c, step
@@ -547,7 +565,7 @@ def l_slice_jl0(op: int, lo: Opt[int], hi: Opt[int], st: int, v: int, shape: int
     pre: lo is None or SL_LO <= lo <= SL_HI
     pre: hi is None or SL_LO <= hi <= SL_HI
     pre: 0 <= st < NSTEP
-    pre: 0 <= shape < 3
+    pre: 0 <= shape < NSLSHAPE
     pre: 0 <= seq < NSEQ
     post: _
     """
@@ -560,7 +578,7 @@ def l_slice_jl1(op: int, lo: Opt[int], hi: Opt[int], st: int, v: int, shape: int
     pre: lo is None or SL_LO <= lo <= SL_HI
     pre: hi is None or SL_LO <= hi <= SL_HI
     pre: 0 <= st < NSTEP
-    pre: 0 <= shape < 3
+    pre: 0 <= shape < NSLSHAPE
     pre: 0 <= seq < NSEQ
     post: _
     """
@@ -573,7 +591,7 @@ def l_slice_jl2(op: int, lo: Opt[int], hi: Opt[int], st: int, v: int, shape: int
     pre: lo is None or SL_LO <= lo <= SL_HI
     pre: hi is None or SL_LO <= hi <= SL_HI
     pre: 0 <= st < NSTEP
-    pre: 0 <= shape < 3
+    pre: 0 <= shape < NSLSHAPE
     pre: 0 <= seq < NSEQ
     post: _
     """
@@ -586,7 +604,7 @@ def l_slice_jl1b(op: int, lo: Opt[int], hi: Opt[int], st: int, v: int, shape: in
     pre: lo is None or SL_LO <= lo <= SL_HI
     pre: hi is None or SL_LO <= hi <= SL_HI
     pre: 0 <= st < NSTEP
-    pre: 0 <= shape < 3
+    pre: 0 <= shape < NSLSHAPE
     pre: 0 <= seq < NSEQ
     post: _
     """
@@ -599,7 +617,7 @@ def l_slice_ia(op: int, lo: Opt[int], hi: Opt[int], st: int, v: int, shape: int,
     pre: lo is None or SL_LO <= lo <= SL_HI
     pre: hi is None or SL_LO <= hi <= SL_HI
     pre: 0 <= st < NSTEP
-    pre: 0 <= shape < 3
+    pre: 0 <= shape < NSLSHAPE
     pre: 0 <= seq < NSEQ
     post: _
     """
@@ -612,7 +630,7 @@ def l_slice_sa(op: int, lo: Opt[int], hi: Opt[int], st: int, v: int, shape: int,
     pre: lo is None or SL_LO <= lo <= SL_HI
     pre: hi is None or SL_LO <= hi <= SL_HI
     pre: 0 <= st < NSTEP
-    pre: 0 <= shape < 3
+    pre: 0 <= shape < NSLSHAPE
     pre: 0 <= seq < NSEQ
     post: _
     """
@@ -625,7 +643,7 @@ def l_slice_fa(op: int, lo: Opt[int], hi: Opt[int], st: int, v: int, shape: int,
     pre: lo is None or SL_LO <= lo <= SL_HI
     pre: hi is None or SL_LO <= hi <= SL_HI
     pre: 0 <= st < NSTEP
-    pre: 0 <= shape < 3
+    pre: 0 <= shape < NSLSHAPE
     pre: 0 <= seq < NSEQ
     post: _
     """
@@ -988,11 +1006,31 @@ HARNESSES = ['l_ops_jl0', 'l_ops_jl1', 'l_ops_jl2', 'l_ops_jl1b', 'l_ops_ia', 'l
 if os.environ.get('C28_DEBUG'):
     import atexit
     _N = [0]
+    _LOG = []
     _orig_mutate, _orig_read = mutate, read
-    def mutate(*a, **k):
+    def _rec(t, table, op, A):
+        from crosshair.core import realize
+        from crosshair.tracers import NoTracing
+        try:
+            vals = [realize(x) for x in (A.i, A.lo, A.hi, A.st, A.k, A.n, A.shape, A.seq, A.v)]
+            with NoTracing():
+                _LOG.append((t, table[op][0]) + tuple(repr(x) for x in vals))
+        except Exception as e:
+            _LOG.append((t, 'ERR', repr(e)))
+    def mutate(t, table, op, A):
         _N[0] += 1
-        return _orig_mutate(*a, **k)
-    def read(*a, **k):
+        r = _orig_mutate(t, table, op, A)
+        _rec(t, table, op, A)
+        return r
+    def read(t, table, op, A):
         _N[0] += 1
-        return _orig_read(*a, **k)
-    atexit.register(lambda: _N[0] and print('PATHS', _N[0], file=open('/tmp/c28_paths.log', 'a')))
+        r = _orig_read(t, table, op, A)
+        _rec(t, table, op, A)
+        return r
+    def _dump():
+        if _N[0] > 2:
+            import collections
+            with open('/tmp/c28_paths.log', 'a') as f:
+                print('PATHS', _N[0], collections.Counter(x[:2] for x in _LOG).most_common(), file=f)
+                print('  DUP', [kv for kv in collections.Counter(_LOG).most_common(5)], file=f)
+    atexit.register(_dump)
